@@ -618,7 +618,7 @@ fn read_code<C: CodeVisitor>(
 
 						if low > high { bail!("in tableswitch `low` must be lower or equal to `high`, it's low={low:?} and high={high:?}"); }
 
-						let n = (high - low + 1) as u32; // always >= 1
+						let n = (high as i64 - low as i64 + 1) as u64; // always >= 1, `high - low` doesn't always fit an `i32`
 
 						for _ in 0..n {
 							labels.create(r.read_i32_as_branch_target_label(opcode_pos)?)?;
@@ -1024,8 +1024,9 @@ fn read_code<C: CodeVisitor>(
 
 				if low > high { bail!("in tableswitch `low` must be lower or equal to `high`, it's low={low:?} and high={high:?}"); }
 
-				let n = (high - low + 1) as u32; // always >= 1
+				let n = (high as i64 - low as i64 + 1) as u64; // always >= 1, `high - low` doesn't always fit an `i32`
 
+				// The first pass over the bytecode has read all of these entries already, so `n` is small.
 				let mut table = Vec::with_capacity(n as usize);
 				for _ in 0..n {
 					let entry = labels.try_get(r.read_i32_as_branch_target_label(opcode_pos)?)?;
